@@ -95,6 +95,7 @@ def call_fit(it, kind):
     it.fit_result = 0
     return ndd
 
+def hsh(h): return __import__("zlib").crc32(repr(h).encode())      # deterministic across processes (str hashes are salted)
 def cstr(it, s): return G.Ptr(it.array("str", [ord(c) for c in s] + [0]), 0)
 
 OPS = [("read", "A"), ("read", "B"), ("read", "bad"), ("read", "bad2"), ("read", "none"), ("read", "out"), ("fit", "ok1"), ("fit", "ok2"), ("fit", "badargs"), ("fit", "fail"),
@@ -196,7 +197,7 @@ def main():
         # every position of one injected allocation failure (std::bad_alloc from allocate<T>) in read / fit / convolve
         inj = []
         for h, r in zip(hists, res):
-            if len(r[0]) > 4 and r[0][1] and (len(h) <= 2 or (len(h) == 3 and (thorough or hash(h) % 4 == 0)) or (len(h) > 3 and thorough and hash(h) % 10 == 0)):
+            if len(r[0]) > 4 and r[0][1] and (len(h) <= 2 or (len(h) == 3 and (thorough or hsh(h) % 4 == 0)) or (len(h) > 3 and thorough and hsh(h) % 10 == 0)):
                 inj += [(h, j) for j in range(r[0][4])]
         res2 = pool.map(run_history, inj, chunksize=16)
     hists_all = hists + [h for h, j in inj]; res = res + res2
